@@ -71,10 +71,11 @@ def make_loss(name: str):
     return getattr(importlib.import_module(f"black_it.loss_functions.{mod}"), name)()
 
 
-def random_config(rng: random.Random, *, rl: bool = False, heavy: bool = True) -> dict:
+def random_config(rng: random.Random, *, rl: bool = False, heavy: bool = True, dims: int | None = None) -> dict:
     d = rng.randint(1, 4)
     if rng.random() < 0.12:
         d = rng.choice([11, 12, 14])        # more than ten parameters
+    d = dims or d
     n_s = rng.randint(1, 4)
     names = [rng.choice(HISTORY_FREE)]
     pool = SAMPLERS if heavy else [s for s in SAMPLERS if s not in ("CORSSampler", "GaussianProcessSampler")]
